@@ -1,11 +1,10 @@
 """Rules shared by the MSM properties (C04, C11, C12, C16)."""
 import ast
+import copy
 
-from ..core import (AnalysisIncomplete, call_name, const_value, kwarg,
-                    names_loaded, params, target_names, u, walk_expr,
-                    walk_local)
-from ..patterns import (Cmp, assigns_to, calls_in, conjuncts, finfo,
-                        returns_of, subscript_stores)
+from ..core import (base_name, call_name, const_value, kwarg, params,
+                    target_names, u, walk_local)
+from ..patterns import Cmp, conjuncts
 
 TM = 'enspara/msm/transition_matrices.py'
 BU = 'enspara/msm/builders.py'
@@ -15,107 +14,797 @@ TS = 'enspara/msm/timescales.py'
 SD = 'enspara/msm/synthetic_data.py'
 
 
+
+# ---------------------------------------------------------------------------
+# Symbolic path execution of small loop-free functions.
+#
+# The builders, eigenspectrum and eq_probs are straight-line code with a few
+# branches.  Instead of looking for "the statement that assigns `weights`",
+# the rules below execute the function symbolically: every local is replaced
+# by the expression (over the PARAMETERS) it holds, one result per feasible
+# path, together with the branch conditions of that path.  Temporaries,
+# statement order, early returns vs if/else, inverted branches, `x if c else
+# y` vs an if statement, tuple unpacking and renamed locals all disappear.
+#
+# pseudo operations appearing in symbolic values
+#   _store(x[i], v)      value of x after  x[i] = v   (x[i] op= w  gives v = x[i] op w)
+#   _setattr(x.a, v)     value of x after  x.a = v
+#   _mut(x, <call>)      value of x after a mutating method call
+#   _recast(a, b)        type(a)(b)
+#   f(...)[k]            k-th element of an unpacked call result
+
+class Unrecognised(Exception):
+    """The function uses a construct the symbolic executor does not model
+    (loop, with, multi-statement try body, opaque call statement ...)."""
+
+
+_PSEUDO = ('_store', '_setattr', '_mut', '_recast')
+# package functions the MSM rules may see through as pure functions of their
+# arguments (their own effects are decided by the *.inputs-unmodified rules)
+KNOWN_PURE = {'eq_probs', '_row_normalize', '_apply_prior_counts', 'eigenspectrum', '_prinz_mle_py', '_prinz_mle',
+              '_mle_prinz_dense'}
+_LOGGERS = {'logger', 'logging', 'log'}
+
+
+def _sigs(ck):
+    try:
+        return ck.repo._ref_signatures()
+    except Exception:
+        return {}
+
+
+class _Recast(ast.NodeTransformer):
+    def visit_Call(self, node):
+        self.generic_visit(node)
+        f = node.func
+        if isinstance(f, ast.Call) and isinstance(f.func, ast.Name) and f.func.id == 'type' and len(f.args) == 1 \
+                and not f.keywords and len(node.args) == 1 and not node.keywords:
+            return ast.copy_location(ast.Call(func=ast.Name(id='_recast', ctx=ast.Load()),
+                                              args=[f.args[0], node.args[0]], keywords=[]), node)
+        if isinstance(f, ast.Attribute) and f.attr == '__class__' and len(node.args) == 1 and not node.keywords:
+            return ast.copy_location(ast.Call(func=ast.Name(id='_recast', ctx=ast.Load()),
+                                              args=[f.value, node.args[0]], keywords=[]), node)
+        # np.array(object=name) -> name.copy()   (canon does this before the
+        # keyword normalisation; abbreviation introduces new names afterwards)
+        if call_name(node) in ('np.array', 'numpy.array') and not node.args and len(node.keywords) == 1 and \
+                node.keywords[0].arg == 'object' and isinstance(node.keywords[0].value, ast.Name):
+            return ast.copy_location(ast.Call(func=ast.Attribute(value=node.keywords[0].value, attr='copy', ctx=ast.Load()),
+                                              args=[], keywords=[]), node)
+        return node
+
+
+def norm(node, sigs=None):
+    """Canonical spelling of a symbolic value / a pattern (front-end canon +
+    the normal-form idiom table + type(a)(b) -> _recast(a, b))."""
+    from ..match import _Canon
+    from ..normal import _Extra
+    n = _Canon().visit(copy.deepcopy(node))      # (match.canon would invent line 1 for synthetic nodes)
+    n = _Extra(sigs or {}).visit(n)
+    n = _Recast().visit(n)
+    return n
+
+
+_pat_cache = {}
+
+
+def pat(text, sigs=None):
+    """Pattern text -> normalised pattern tree (metavariables `_X`)."""
+    key = (text, id(sigs))
+    if key not in _pat_cache:
+        t = ast.parse(text).body[0]
+        if isinstance(t, ast.Expr):
+            t = t.value
+        _pat_cache[key] = norm(t, sigs)
+    return _pat_cache[key]
+
+
+def smatch(pats, node, sigs=None, binds=None):
+    """Bindings of the first pattern (text) matching the normalised node."""
+    from ..match import match
+    for p in ([pats] if isinstance(pats, str) else pats):
+        b = match(pat(p, sigs), node, binds, canonical=False)
+        if b is not None:
+            return b
+    return None
+
+
+def closed_over(node, scope):
+    """`node` is a pure numpy/scipy/builtin function of the names in scope
+    (pseudo operations are transparent)."""
+    from ..match import _closed_over
+
+    class T(ast.NodeTransformer):
+        def visit_Call(self, n):
+            self.generic_visit(n)
+            if isinstance(n.func, ast.Name) and (n.func.id in _PSEUDO or n.func.id in KNOWN_PURE):
+                return ast.Tuple(elts=list(n.args) + [k.value for k in n.keywords], ctx=ast.Load())
+            return n
+    try:
+        return _closed_over(T().visit(copy.deepcopy(node)), set(scope) | {'scipy', 'type', 'sp'})
+    except Exception:
+        return False
+
+
+def sclassify(node, pats, scope, sigs=None, binds=None):
+    """Three-valued recognition (see match.classify) of a normalised symbolic
+    value: ('match', b) / ('near', d, pattern) - a different pure function of
+    the operands in `scope` - / ('far', d, pattern)."""
+    from ..match import distance
+    best = None
+    for p in pats:
+        b = dict(binds or {})
+        d = distance(pat(p, sigs), node, b)
+        if d == 0:
+            return ('match', b)
+        if best is None or d < best[0]:
+            best = (d, p)
+    if best is None:
+        return ('far', 10 ** 6, None)
+    return ('near' if closed_over(node, scope) else 'far', best[0], best[1])
+
+
+def abbreviate(node, table, sigs=None):
+    """Replace every subtree whose text equals a key of `table` (text ->
+    symbol name) by that symbol, outermost first, and re-normalise."""
+    class A(ast.NodeTransformer):
+        def generic_visit(self, n):
+            if isinstance(n, ast.expr) and not isinstance(n, (ast.Slice, ast.Starred)):
+                t = table.get(u(n))
+                if t is not None:
+                    return ast.copy_location(ast.Name(id=t, ctx=ast.Load()), n)
+            return super().generic_visit(n)
+    return norm(A().visit(copy.deepcopy(node)), sigs)
+
+
+def subtrees(node, pred):
+    return [n for n in ast.walk(node) if pred(n)]
+
+
+def line_of(node, default=None):
+    for n in ast.walk(node):
+        if getattr(n, 'lineno', None):
+            return n
+    return default
+
+
+def src_stmt(fn, node):
+    """Innermost simple statement of fn covering the line of `node`."""
+    ln = getattr(line_of(node), 'lineno', None) if node is not None else None
+    if ln is None:
+        return None
+    best = None
+    for s in walk_local(fn):
+        if isinstance(s, ast.stmt) and getattr(s, 'lineno', None) is not None and \
+                s.lineno <= ln <= getattr(s, 'end_lineno', s.lineno):
+            if best is None or (getattr(s, 'end_lineno', s.lineno) - s.lineno) <= (getattr(best, 'end_lineno', best.lineno) - best.lineno):
+                best = s
+    return best
+
+
+def _atom_key(c):
+    from ..patterns import canon_atom
+    key, pol = canon_atom(c)
+    if key[1] == 'is not':
+        return (key[0], 'is', key[2]), not pol
+    if key[1] == 'not in':
+        return (key[0], 'in', key[2]), not pol
+    return key, pol
+
+
+_OPS = {'<': ast.Lt, '<=': ast.LtE, '==': ast.Eq, 'is': ast.Is, 'in': ast.In, '!=': ast.NotEq}
+
+
+def _expr(text):
+    e = ast.parse(text, mode='eval').body
+    for n in ast.walk(e):          # parsed from text: no source position
+        for a in ('lineno', 'col_offset', 'end_lineno', 'end_col_offset'):
+            if hasattr(n, a):
+                delattr(n, a)
+    return e
+
+
+def cond_atoms(test, polarity):
+    """[(key, polarity, atom)] of a (normalised) branch condition: `atom` is
+    an expression that evaluates to `polarity` on the path."""
+    cj = conjuncts(test, polarity)
+    if cj is None:
+        return [(('expr', u(test)), polarity, test)]
+    out = []
+    for c in cj:
+        if isinstance(c, Cmp):
+            k, p = _atom_key(c)
+            if k[1] in _OPS:
+                try:
+                    node = ast.Compare(left=_expr(k[0]), ops=[_OPS[k[1]]()], comparators=[_expr(k[2])])
+                    if hasattr(test, 'lineno'):
+                        ast.copy_location(node, test)
+                except SyntaxError:
+                    node = test
+            else:
+                node = test
+            out.append((k, p, node))
+        else:
+            out.append((('expr', u(c[1])), c[2], c[1]))
+    return out
+
+
+class SymPath:
+    """One feasible path: kind 'return' / 'raise', the symbolic value, the
+    branch conditions {key: (polarity, atom)}, the final environment."""
+
+    def __init__(self, kind, value, conds, env, stmt):
+        self.kind, self.value, self.conds, self.env, self.stmt = kind, value, conds, env, stmt
+
+    def cond(self, key):
+        v = self.conds.get(key)
+        return None if v is None else v[0]
+
+    def pol(self, pats, sigs=None):
+        """Polarity of the path condition matching one of the patterns
+        (None: the path does not test it)."""
+        for pt in ([pats] if isinstance(pats, str) else pats):
+            atoms = cond_atoms(pat(pt, sigs), True)
+            if len(atoms) != 1:
+                continue
+            _, ppol, pnode = atoms[0]
+            from ..match import match
+            for k, (pol, node) in self.conds.items():
+                if k[0] != 'raises' and match(pnode, node, None, canonical=False) is not None:
+                    return pol if ppol else not pol
+        return None
+
+    def abbrev(self, table, sigs=None):
+        """The path with sub-expressions replaced by symbols (value and
+        conditions)."""
+        conds = {}
+        for k, (pol, node) in self.conds.items():
+            if k[0] == 'raises':
+                conds[k] = (pol, node)
+                continue
+            n2 = abbreviate(node, table, sigs)
+            for k2, p2, a2 in cond_atoms(n2, pol):
+                conds[k2] = (p2, a2)
+        return SymPath(self.kind, abbreviate(self.value, table, sigs), conds, self.env, self.stmt)
+
+    def exprs(self):
+        return [self.value] + [n for k, (p, n) in self.conds.items() if k[0] != 'raises']
+
+    def __repr__(self):
+        return '%s %s if %s' % (self.kind, u(self.value), ['%s=%s' % (k, v[0]) for k, v in self.conds.items()])
+
+
+class _State:
+    """env: local -> symbolic value; conds: branch conditions; alias: local ->
+    group of locals that may denote the same object (`a = b`, views `a =
+    b.T`, `a = b[i]`); stale: locals whose symbolic value is out of date
+    because an alias was updated in place (reading one is not modelled)."""
+
+    def __init__(self, env, conds, alias=None, stale=None):
+        self.env, self.conds = env, conds
+        self.alias = alias if alias is not None else {}
+        self.stale = stale if stale is not None else set()
+
+    def fork(self):
+        return _State(dict(self.env), dict(self.conds), dict(self.alias), set(self.stale))
+
+    def group(self, name):
+        return self.alias.get(name, frozenset([name]))
+
+    def rebind(self, name, root=None):
+        if root == name:
+            return                      # x = x.T / x = x[i] / x op= v: still (a view of) the same object
+        others = self.group(name) - {name}
+        for m in others:
+            self.alias[m] = others
+        self.stale.discard(name)
+        g = (self.group(root) | {name}) if root is not None else frozenset([name])
+        for m in g:
+            self.alias[m] = g
+        if root is not None and root in self.stale:
+            self.stale.add(name)
+
+    def mutated(self, name):
+        self.stale |= set(self.group(name)) - {name}
+
+    def fingerprint(self):
+        return tuple(sorted((k, ast.dump(v)) for k, v in self.env.items()))
+
+
+def _view_root(e):
+    """Local the value of `e` may share storage with (bare name, attribute /
+    subscript / .T chains)."""
+    while isinstance(e, (ast.Attribute, ast.Subscript)):
+        e = e.value
+    return e.id if isinstance(e, ast.Name) else None
+
+
+class _Sub(ast.NodeTransformer):
+    def __init__(self, env, bound, stale=()):
+        self.env, self.bound, self.stale = env, bound, stale
+
+    def visit_Name(self, n):
+        if isinstance(n.ctx, ast.Load) and n.id in self.stale and n.id not in self.bound:
+            raise Unrecognised('`%s` is read after an alias of it was updated in place' % n.id)
+        if isinstance(n.ctx, ast.Load) and n.id in self.env and n.id not in self.bound:
+            v = copy.deepcopy(self.env[n.id])
+            if not hasattr(v, 'lineno') and hasattr(n, 'lineno'):
+                ast.copy_location(v, n)          # a parameter: cite the use site
+            return v
+        return n
+
+    def visit_Lambda(self, n):
+        return n
+
+
+class SymExec:
+    def __init__(self, fn, sigs=None, limit=400):
+        self.fn, self.sigs, self.limit = fn, sigs or {}, limit
+        self.paths = []
+        env = {p: ast.Name(id=p, ctx=ast.Load()) for p in params(fn)}
+        outs = self.block(fn.body, [_State(env, {})])
+        for st in outs:
+            self.finish('return', ast.Constant(value=None), st, fn)
+
+    # -- expressions
+    def subst(self, e, st):
+        bound = set()
+        for x in ast.walk(e):
+            if isinstance(x, ast.comprehension):
+                bound.update(target_names(x.target))
+            if isinstance(x, ast.NamedExpr):
+                raise Unrecognised('assignment expression')
+        return _Sub(st.env, bound, st.stale).visit(copy.deepcopy(e))
+
+    def assume(self, st, test, polarity):
+        """State with the condition added, or None if it contradicts the path."""
+        t = norm(test, self.sigs)
+        if isinstance(t, ast.Constant):
+            return st if bool(t.value) == polarity else None
+        new = st.fork()
+        for k, p, node in cond_atoms(t, polarity):
+            old = new.conds.get(k)
+            if old is not None and old[0] != p:
+                return None
+            new.conds[k] = (p, node)
+        return new
+
+    def values(self, e, st):
+        """[(symbolic value, state)]: conditional expressions fork the path."""
+        v = self.subst(e, st)
+        return self._split(v, st)
+
+    def _split(self, v, st):
+        first = None
+        stack = [v]
+        while stack:
+            n = stack.pop(0)
+            if isinstance(n, ast.IfExp):
+                first = n
+                break
+            if isinstance(n, (ast.Lambda, ast.ListComp, ast.SetComp, ast.DictComp, ast.GeneratorExp)):
+                continue
+            stack = list(ast.iter_child_nodes(n)) + stack
+        if first is None:
+            return [(v, st)]
+        out = []
+        for pol, pick in ((True, first.body), (False, first.orelse)):
+            s2 = self.assume(st, first.test, pol)
+            if s2 is None:
+                continue
+
+            class R(ast.NodeTransformer):
+                def visit_IfExp(self, n):
+                    return pick if n is first else self.generic_visit(n)
+            v2 = pick if v is first else R().visit(v)
+            out += self._split(copy.deepcopy(v2), s2)
+        return out
+
+    # -- statements
+    def finish(self, kind, value, st, stmt):
+        if len(self.paths) >= self.limit:
+            raise Unrecognised('more than %d paths' % self.limit)
+        self.paths.append(SymPath(kind, norm(value, self.sigs), st.conds, st.env, stmt))
+
+    def block(self, stmts, states):
+        for s in stmts:
+            nxt = []
+            for st in states:
+                nxt += self.stmt(s, st)
+            states = nxt
+            if len(states) > self.limit:
+                raise Unrecognised('more than %d paths' % self.limit)
+            if not states:
+                break
+        return states
+
+    def _bind(self, target, value, st, stmt, root=None):
+        if isinstance(target, ast.Name):
+            st.env[target.id] = value
+            st.rebind(target.id, root)
+        elif isinstance(target, (ast.Tuple, ast.List)):
+            if any(isinstance(e, ast.Starred) for e in target.elts):
+                raise Unrecognised('starred assignment target')
+            if isinstance(value, (ast.Tuple, ast.List)) and len(value.elts) == len(target.elts):
+                for t, v in zip(target.elts, value.elts):
+                    self._bind(t, v, st, stmt)
+            else:
+                for i, t in enumerate(target.elts):
+                    self._bind(t, ast.copy_location(ast.Subscript(value=copy.deepcopy(value), slice=ast.Constant(value=i),
+                                                                  ctx=ast.Load()), stmt), st, stmt)
+        elif isinstance(target, (ast.Subscript, ast.Attribute)):
+            base = base_name(target)
+            if base is None:
+                raise Unrecognised('store into %s' % u(target))
+            tv = self.subst(target, st)
+            for x in ast.walk(tv):
+                if hasattr(x, 'ctx'):
+                    x.ctx = ast.Load()
+            direct = isinstance(target.value, ast.Name)
+            st.mutated(base)
+            f = ('_store' if isinstance(target, ast.Subscript) else '_setattr') if direct else '_mut'
+            st.env[base] = ast.copy_location(ast.Call(func=ast.Name(id=f, ctx=ast.Load()), args=[tv, value], keywords=[]), stmt)
+        else:
+            raise Unrecognised('assignment target %s' % u(target))
+
+    def stmt(self, s, st):
+        if isinstance(s, (ast.Pass, ast.Import, ast.ImportFrom, ast.Global, ast.Nonlocal, ast.Assert)):
+            return [st]
+        if isinstance(s, (ast.FunctionDef, ast.AsyncFunctionDef, ast.ClassDef)):
+            st = st.fork()
+            st.env.pop(s.name, None)
+            return [st]
+        if isinstance(s, ast.Expr):
+            v = s.value
+            if isinstance(v, ast.Constant):
+                return [st]
+            if isinstance(v, ast.Call):
+                cn = call_name(v) or ''
+                if cn.split('.')[0] in _LOGGERS or cn in ('warnings.warn', 'warn', 'print'):
+                    return [st]
+                from ..normal import is_pure, MUTATING_METHODS
+                if isinstance(v.func, ast.Attribute) and v.func.attr in MUTATING_METHODS and base_name(v.func.value):
+                    st = st.fork()
+                    b = base_name(v.func.value)
+                    st.mutated(b)
+                    st.env[b] = ast.copy_location(ast.Call(func=ast.Name(id='_mut', ctx=ast.Load()),
+                                                           args=[self.subst(ast.Name(id=b, ctx=ast.Load()), st), self.subst(v, st)],
+                                                           keywords=[]), s)
+                    return [st]
+                if is_pure(v):
+                    return [st]
+            raise Unrecognised('statement `%s`' % u(s)[:80])
+        if isinstance(s, (ast.Assign, ast.AnnAssign)):
+            if s.value is None:
+                return [st]
+            targets = s.targets if isinstance(s, ast.Assign) else [s.target]
+            if any(k.arg == 'out' for c in ast.walk(s.value) if isinstance(c, ast.Call) for k in c.keywords):
+                raise Unrecognised('out= argument')
+            out = []
+            for v, s2 in self.values(s.value, st):
+                s2 = s2.fork()
+                for t in targets:
+                    self._bind(t, v, s2, s, _view_root(s.value))
+                out.append(s2)
+            return out
+        if isinstance(s, ast.AugAssign):
+            out = []
+            for v, s2 in self.values(s.value, st):
+                s2 = s2.fork()
+                cur = self.subst(s.target, s2)
+                for x in ast.walk(cur):
+                    if hasattr(x, 'ctx'):
+                        x.ctx = ast.Load()
+                if isinstance(s.target, ast.Name):
+                    s2.mutated(s.target.id)          # in place for arrays
+                    self._bind(s.target, ast.copy_location(ast.BinOp(left=cur, op=s.op, right=v), s), s2, s, s.target.id)
+                else:
+                    self._bind(s.target, ast.copy_location(ast.BinOp(left=cur, op=s.op, right=v), s), s2, s)
+                out.append(s2)
+            return out
+        if isinstance(s, ast.Delete):
+            st = st.fork()
+            for t in s.targets:
+                if isinstance(t, ast.Name):
+                    st.env.pop(t.id, None)
+                else:
+                    raise Unrecognised('del %s' % u(t))
+            return [st]
+        if isinstance(s, ast.Return):
+            for v, s2 in self.values(s.value if s.value is not None else ast.Constant(value=None), st):
+                self.finish('return', v, s2, s)
+            return []
+        if isinstance(s, ast.Raise):
+            self.finish('raise', self.subst(s.exc, st) if s.exc is not None else ast.Constant(value=None), st, s)
+            return []
+        if isinstance(s, ast.If):
+            outs = []
+            n_before = len(self.paths)
+            branches = []
+            for test, s0 in self.values(s.test, st):
+                for pol, body in ((True, s.body), (False, s.orelse)):
+                    s2 = self.assume(s0, test, pol)
+                    if s2 is None:
+                        continue
+                    branches.append(self.block(body, [s2]))
+            outs = [x for b in branches for x in b]
+            # both branches leave the same state behind (logging only): no fork
+            if len(branches) == 2 and len(outs) == 2 and len(self.paths) == n_before and \
+                    all(len(b) == 1 for b in branches) and outs[0].fingerprint() == outs[1].fingerprint():
+                return [_State(outs[0].env, dict(st.conds), outs[0].alias, outs[0].stale)]
+            return outs
+        if isinstance(s, ast.Try):
+            if s.finalbody:
+                raise Unrecognised('try/finally')
+            if s.handlers and len(s.body) != 1:
+                raise Unrecognised('try body with several statements')
+            outs = self.block(s.body, [st])
+            if s.orelse:
+                outs = self.block(s.orelse, outs)
+            for h in s.handlers:
+                key = ('raises', u(h.type) if h.type is not None else 'BaseException', getattr(s, 'lineno', 0))
+                s2 = st.fork()
+                s2.conds[key] = (True, h.type if h.type is not None else s)
+                if h.name:
+                    s2.env.pop(h.name, None)
+                outs += self.block(h.body, [s2])
+            return outs
+        raise Unrecognised('%s statement' % type(s).__name__)
+
+
+def symexec(fn, sigs=None):
+    """Feasible paths of a loop-free function (list of SymPath); raises
+    Unrecognised if the function cannot be modelled."""
+    return SymExec(fn, sigs).paths
+
+
+def sparsity_cond(path, operand_texts):
+    """Polarity of the `issparse/isspmatrix(<operand>)` condition on the path
+    (None if the path does not test it)."""
+    for k, (pol, node) in path.conds.items():
+        if k[0] == 'expr' and isinstance(node, ast.Call) and (call_name(node) or '').split('.')[-1] in ('issparse', 'isspmatrix') \
+                and len(node.args) == 1 and u(node.args[0]) in operand_texts:
+            return pol
+    return None
+
+
+class Once:
+    """Checker front that records each (rule, construct, outcome) once: the
+    path-wise rules meet the same construct on many paths."""
+
+    def __init__(self, ck, mod, fn, fname):
+        self.ck, self.mod, self.fn, self.fname, self.seen = ck, mod, fn, fname, set()
+
+    def _where(self, node, fallback=None):
+        st = src_stmt(self.fn, node) if node is not None else None
+        anchor = line_of(node) if node is not None else None
+        text = u(st) if st is not None and not isinstance(st, (ast.If, ast.Try)) else (
+            u(node) if node is not None else (fallback or self.fname))
+        return (st or anchor or self.fn), norm_ws(text)[:200]
+
+    def check(self, cond, rule, node, ok_text, bad_text, construct=None):
+        at, text = self._where(node)
+        text = construct or text
+        k = (rule, text, bool(cond))
+        if k in self.seen:
+            return bool(cond)
+        self.seen.add(k)
+        self.ck.check(cond, rule, self.mod, at, self.fname, text, ok_text, bad_text)
+        return bool(cond)
+
+    def decide(self, verdict, rule, node, ok_text, bad_text, construct=None):
+        at, text = self._where(node)
+        text = construct or text
+        k = (rule, text, verdict[0])
+        if k in self.seen:
+            return verdict[0] == 'match'
+        self.seen.add(k)
+        return self.ck.decide(verdict, rule, self.mod, at, self.fname, text, ok_text, bad_text)
+
+    def missing(self, rule, what):
+        k = (rule, what, 'missing')
+        if k not in self.seen:
+            self.seen.add(k)
+            self.ck.missing(rule, what)
+
+
+def norm_ws(s):
+    return ' '.join(s.split())
+
+
+def paths_or_missing(ck, rule, mod, fn, fname):
+    try:
+        ps = symexec(fn, _sigs(ck))
+    except Unrecognised as e:
+        ck.missing(rule, '%s is not a loop-free function the path analysis can model: %s' % (fname, e))
+        return None
+    except RecursionError:
+        ck.missing(rule, '%s: expression too deep for the path analysis' % fname)
+        return None
+    return ps
+
+
+_CONVERSIONS = ('tocsr', 'tocsc', 'tocoo', 'toarray', 'asfptype', 'tolil')
+
+
+_FLOAT = ('float', 'np.float64', 'np.float_', 'np.double', "'float'", "'float64'", "'d'")
+
+
+def strip_conversions(m):
+    """The matrix under value-preserving container conversions."""
+    while True:
+        if isinstance(m, ast.Call) and isinstance(m.func, ast.Attribute) and m.func.attr in _CONVERSIONS and not m.args and not m.keywords:
+            m = m.func.value
+        elif isinstance(m, ast.Call) and call_name(m) in ('np.asarray', 'np.array', 'np.asanyarray', 'np.ascontiguousarray') and \
+                len(m.args) <= 1 and all(k.arg in ('a', 'object') or (k.arg == 'dtype' and u(k.value) in _FLOAT) or
+                                         (k.arg == 'copy' and isinstance(k.value, ast.Constant)) for k in m.keywords) and \
+                len(m.args) + sum(1 for k in m.keywords if k.arg in ('a', 'object')) == 1:
+            m = (m.args + [k.value for k in m.keywords if k.arg in ('a', 'object')])[0]
+        elif isinstance(m, ast.Call) and isinstance(m.func, ast.Attribute) and m.func.attr == 'copy' and not m.args:
+            m = m.func.value
+        elif isinstance(m, ast.Call) and isinstance(m.func, ast.Attribute) and m.func.attr == 'astype' and \
+                len(m.args) + len(m.keywords) == 1 and u((m.args + [k.value for k in m.keywords])[0]) in _FLOAT:
+            m = m.func.value
+        else:
+            return m
+
+
+def _distinct(nodes):
+    out = {}
+    for n in nodes:
+        out.setdefault(u(n), n)
+    return list(out.values())
+
+
 def check_spectrum(ck, prefix):
-    """eigenspectrum / eq_probs: ordering, column permutation, normalisation."""
+    """eigenspectrum / eq_probs: ordering, column permutation, normalisation.
+
+    Decided on the symbolic value of every return path of eigenspectrum (see
+    SymExec): with E the eigensolver call of the path, the function must return
+        ( real(E[0][o][:n]),  real(N(E[1][:, o])[:, :n]) )
+    where o sorts E[0] by descending real part, N divides column 0 by its own
+    sum, n is the requested number of eigenpairs and E decomposes T.T when
+    `left` holds on the path and T otherwise."""
     rule = prefix + '.spectrum'
+    sigs = _sigs(ck)
     mod = ck.repo.mod(TM)
     fn = mod.func('eigenspectrum')
     ck.analysed(mod, fn)
-    fi = finfo(mod, fn)
-    T = params(fn)[0]
-    # left eigenvectors: T = T.T if left else T
-    tdefs = [s for s in assigns_to(fn, T) if isinstance(s, ast.Assign)]
-    ok = any(isinstance(s.value, ast.IfExp) and u(s.value.test) == 'left' and u(s.value.body) == '%s.T' % T
-             and u(s.value.orelse) == T for s in tdefs) or \
-        any(isinstance(s.value, ast.IfExp) and u(s.value.test) == 'not left' and u(s.value.orelse) == '%s.T' % T
-            and u(s.value.body) == T for s in tdefs)
-    ck.check(ok, rule + '.left', mod, tdefs[0] if tdefs else fn, 'eigenspectrum',
-             '; '.join(u(s) for s in tdefs)[:160], 'left eigenvectors = right eigenvectors of the transpose',
-             'left=True must decompose T.T (and left=False T itself)')
-    # order = argsort by descending real part
-    od = [s for s in walk_local(fn) if isinstance(s, ast.Assign) and isinstance(s.value, (ast.Call, ast.Subscript))
-          and 'argsort' in u(s.value)]
-    if len(od) != 1:
-        ck.missing(rule + '.order', 'argsort of the eigenvalues (found %d)' % len(od))
-        return
-    o = od[0]
-    oname = u(o.targets[0])
-    txt = u(o.value)
-    ok = txt in ('np.argsort(-np.real(vals))', 'np.argsort(-vals.real)', 'np.argsort(np.real(vals))[::-1]',
-                 'np.argsort(vals.real)[::-1]', 'np.argsort(-1 * np.real(vals))', '(-np.real(vals)).argsort()',
-                 'np.real(vals).argsort()[::-1]')
-    ck.check(ok, rule + '.order', mod, o, 'eigenspectrum', u(o),
-             'eigenpairs sorted by descending real part',
-             'eigenvalues must be ordered by DESCENDING REAL PART (np.argsort(-np.real(vals))): sorting '
-             'by magnitude/ascending puts -1 (periodic chains) or the smallest eigenvalue first, so '
-             'column 0 is no longer the stationary vector')
-    # same permutation applied to values and to eigenvector COLUMNS
-    vperm = [s for s in assigns_to(fn, 'vals') if isinstance(s, ast.Assign) and isinstance(s.value, ast.Subscript)
-             and u(s.value.slice) == oname]
-    cperm = [s for s in assigns_to(fn, 'vecs') if isinstance(s, ast.Assign) and isinstance(s.value, ast.Subscript)
-             and isinstance(s.value.slice, ast.Tuple)]
-    okv = len(vperm) == 1 and u(vperm[0].value) == 'vals[%s]' % oname
-    okc = len([s for s in cperm if u(s.value) == 'vecs[:, %s]' % oname]) == 1
-    ck.check(okv and okc, rule + '.permute', mod, vperm[0] if vperm else o, 'eigenspectrum',
-             '%s ; %s' % (u(vperm[0]) if vperm else '?', '; '.join(u(s) for s in cperm)),
-             'one permutation reorders eigenvalues and eigenvector columns together',
-             'the permutation `%s` must be applied to vals AND to the COLUMNS of vecs (vecs[:, %s]); '
-             'permuting rows or only one of them pairs eigenvalues with the wrong vectors' % (oname, oname))
-    if okv and okc:
-        same = all(fi.defs_of_use(x) == {o} for s in (vperm[0], [c for c in cperm if u(c.value) == 'vecs[:, %s]' % oname][0])
-                   for x in ast.walk(s.value) if isinstance(x, ast.Name) and x.id == oname)
-        ck.check(same, rule + '.permute', mod, o, 'eigenspectrum', 'uses of %s' % oname,
-                 'both uses see the same permutation', 'vals and vecs are permuted with different definitions of the order')
-    # normalise column 0 by its own sum, after the permutation
-    norm = [s for s in walk_local(fn) if isinstance(s, ast.AugAssign) and isinstance(s.op, ast.Div)
-            and u(s.target) == 'vecs[:, 0]']
-    ok = len(norm) == 1 and u(norm[0].value) in ('vecs[:, 0].sum()', 'np.sum(vecs[:, 0])')
-    if ok and okc:
-        cp = [c for c in cperm if u(c.value) == 'vecs[:, %s]' % oname][0]
-        ok = fi.cfg.dominates(cp, norm[0])
-    ck.check(ok, rule + '.normalise', mod, norm[0] if norm else fn, 'eigenspectrum', u(norm[0]) if norm else 'vecs[:, 0] /= ...',
-             'leading eigenvector normalised to sum one after sorting',
-             'column 0 must be divided by its own sum AFTER the columns were sorted')
-    # real parts, truncation to n_eigs
-    r = returns_of(fn)
-    ok = len(r) == 1 and u(r[0].value) == '(vals, vecs)'
-    fin_v = [s for s in assigns_to(fn, 'vals') if isinstance(s, ast.Assign) and u(s.value) == 'np.real(vals[:n_eigs])']
-    fin_c = [s for s in assigns_to(fn, 'vecs') if isinstance(s, ast.Assign) and u(s.value) == 'np.real(vecs[:, :n_eigs])']
-    ck.check(ok and len(fin_v) == 1 and len(fin_c) == 1, rule + '.truncate', mod, r[0] if r else fn, 'eigenspectrum',
-             '%s ; %s' % (u(fin_v[0]) if fin_v else '?', u(fin_c[0]) if fin_c else '?'),
-             'first n_eigs real eigenvalues and the matching first n_eigs columns',
-             'must return (real(vals[:n_eigs]), real(vecs[:, :n_eigs]))')
-    # sparse solver asks for the largest REAL part
-    eg = [c for c in calls_in(fn) if (call_name(c) or '').endswith('linalg.eigs')]
-    for c in eg:
-        w = kwarg(c, 'which')
-        ck.check(w is not None and const_value(w) == 'LR', rule + '.which', mod, c, 'eigenspectrum', u(c),
-                 "ARPACK asked for the eigenvalues of largest real part (which='LR')",
-                 "the truncated sparse spectrum must request which='LR' (largest real part), consistent "
-                 "with the descending-real-part order; 'LM' returns a negative eigenvalue of larger "
-                 'magnitude instead of a slow positive one')
-        ok = len(c.args) >= 2 and u(c.args[1]) == 'n_eigs'
-        ck.check(ok, rule + '.which', mod, c, 'eigenspectrum', u(c), 'k = n_eigs', 'eigs must be asked for n_eigs eigenvalues')
-    ck.floor(rule + '.which', len(eg), 1, 'sparse eigensolver call')
-    dense = [c for c in calls_in(fn) if (call_name(c) or '').endswith('linalg.eig')]
-    ck.check(len(dense) == 1 and u(dense[0].args[0]) == T, rule + '.dense', mod, dense[0] if dense else fn, 'eigenspectrum',
-             u(dense[0]) if dense else 'eig', 'dense solver on the (transposed) matrix', 'dense branch must call scipy.linalg.eig(T)')
-    # eq_probs
+    F = 'eigenspectrum'
+    ps = params(fn)
+    T, NE, LEFT = ps[0], ps[1], ps[2]
+    paths = paths_or_missing(ck, rule, mod, fn, F)
+    o = Once(ck, mod, fn, F)
+    n_sparse = n_dense = 0
+    for p in (paths or []):
+        if p.kind != 'return':
+            continue
+        v = p.value
+        if not (isinstance(v, ast.Tuple) and len(v.elts) == 2):
+            o.missing(rule + '.truncate', 'eigenspectrum does not return a pair (values, vectors): %s' % u(v)[:120])
+            continue
+        solvers = _distinct(c for c in ast.walk(v) if isinstance(c, ast.Call) and
+                            (call_name(c) or '').split('.')[-1] in ('eig', 'eigs', 'eigh', 'eigsh', 'eigvals'))
+        if len(solvers) != 1:
+            o.missing(rule + '.dense', 'exactly one eigensolver call feeding the result (found %d)' % len(solvers))
+            continue
+        E = solvers[0]
+        kind = (call_name(E) or '').split('.')[-1]
+        if kind not in ('eig', 'eigs'):
+            o.check(False, rule + '.dense', E, '', 'the spectrum of a (non-symmetric) transition matrix must come from '
+                    'scipy.linalg.eig / scipy.sparse.linalg.eigs; %s is a different decomposition' % call_name(E))
+            continue
+        M = (E.args + [k.value for k in E.keywords if k.arg in ('A', 'a')])[:1]
+        if not M:
+            o.missing(rule + '.dense', 'matrix argument of the eigensolver call %s' % u(E)[:100])
+            continue
+        M = strip_conversions(M[0])
+        # --- left eigenvectors = right eigenvectors of the transpose
+        pol = p.cond(('expr', LEFT))
+        if pol is None:
+            o.missing(rule + '.left', 'the path does not branch on `%s`; cannot tell which matrix must be decomposed (%s)' % (LEFT, u(M)[:80]))
+        else:
+            want = ['%s.T' % T] if pol else [T]
+            o.decide(sclassify(M, want, {T}, sigs), rule + '.left', M,
+                     'left eigenvectors = right eigenvectors of the transpose',
+                     'left=True must decompose T.T (and left=False T itself); on the path with %s=%s the solver gets %s'
+                     % (LEFT, pol, u(M)[:80]), construct='%s=%s: %s' % (LEFT, pol, u(M)[:120]))
+        # --- solver options
+        N = norm(p.env.get(NE, ast.Name(id=NE, ctx=ast.Load())), sigs)
+        if kind == 'eigs':
+            n_sparse += 1
+            w = kwarg(E, 'which')
+            o.check(w is not None and const_value(w) == 'LR', rule + '.which', E,
+                    "ARPACK asked for the eigenvalues of largest real part (which='LR')",
+                    "the truncated sparse spectrum must request which='LR' (largest real part), consistent "
+                    "with the descending-real-part order; 'LM' returns a negative eigenvalue of larger "
+                    'magnitude instead of a slow positive one', construct='eigs(which=%s)' % (u(w) if w is not None else 'default'))
+            k = E.args[1] if len(E.args) > 1 else kwarg(E, 'k')
+            o.check(k is not None and u(k) == u(N), rule + '.which', E, 'k = n_eigs', 'eigs must be asked for n_eigs eigenvalues',
+                    construct='eigs(k=%s) with n_eigs=%s' % (u(k) if k is not None else 'default', u(N)))
+        else:
+            n_dense += 1
+            plain = len(E.args) + len(E.keywords) == 1
+            o.check(plain, rule + '.dense', E, 'dense solver on the (transposed) matrix',
+                    'dense branch must call scipy.linalg.eig(T) (right eigenvectors only)', construct=u(E.func) + '(...)' + (
+                        '' if plain else ' with extra arguments'))
+        # --- shape of the result
+        a = abbreviate(v, {u(E): 'EIG__', u(N): 'NEIGS__'}, sigs)
+        a = abbreviate(a, {'EIG__[0]': 'VALS0__', 'EIG__[1]': 'VECS0__'}, sigs)
+        scope = {'VALS0__', 'VECS0__', 'NEIGS__'}
+        vo, wo = a.elts
+        bv = smatch(['_V[:NEIGS__].real', '_V.real[:NEIGS__]'], vo, sigs)
+        bw = smatch(['_W[:, :NEIGS__].real', '_W.real[:, :NEIGS__]'], wo, sigs)
+        if bv is None or bw is None:
+            bad_elt = vo if bv is None else wo
+            pats = ['_V[:NEIGS__].real'] if bv is None else ['_W[:, :NEIGS__].real']
+            o.decide(sclassify(bad_elt, pats, scope, sigs), rule + '.truncate', v.elts[0] if bv is None else v.elts[1],
+                     '', 'must return (real(vals[:n_eigs]), real(vecs[:, :n_eigs]))')
+            continue
+        o.check(True, rule + '.truncate', p.stmt, 'first n_eigs real eigenvalues and the matching first n_eigs columns', '',
+                construct='(vals[:n].real, vecs[:, :n].real)')
+        V, W = bv['_V'], bw['_W']
+        bo = smatch('VALS0__[_O]', V, sigs)
+        bn = smatch('_store(_B[:, 0], _Q)', W, sigs)
+        if bn is None:
+            # not normalised by an item store: which other function of the eigenvectors is it?
+            o.decide(sclassify(W, ['_store(VECS0__[:, _O][:, 0], VECS0__[:, _O][:, 0] / VECS0__[:, _O][:, 0].sum())'], scope, sigs),
+                     rule + '.normalise', W, '', 'column 0 must be divided by its own sum AFTER the columns were sorted')
+            continue
+        B, Q = bn['_B'], bn['_Q']
+        bb = smatch('VECS0__[:, _O2]', B, sigs)
+        if bo is None or bb is None:
+            which = V if bo is None else B
+            o.decide(sclassify(which, ['VALS0__[_O]'] if bo is None else ['VECS0__[:, _O]'], scope, sigs), rule + '.permute', which, '',
+                     'the permutation must be applied to vals AND to the COLUMNS of vecs (vecs[:, order]); permuting rows or '
+                     'only one of them pairs eigenvalues with the wrong vectors (and the normalisation must follow the sorting)')
+            continue
+        O, O2 = bo['_O'], bb['_O2']
+        o.check(u(O) == u(O2), rule + '.permute', O2, 'one permutation reorders eigenvalues and eigenvector columns together',
+                'vals and vecs are permuted with different orders: %s vs %s' % (u(O)[:80], u(O2)[:80]))
+        o.decide(sclassify(O, ['(-VALS0__.real).argsort()', 'VALS0__.real.argsort()[::-1]', '(-1 * VALS0__.real).argsort()',
+                               '(VALS0__.real * -1).argsort()', '(-VALS0__).real.argsort()', '(-1.0 * VALS0__.real).argsort()',
+                               'np.flip(VALS0__.real.argsort())', 'np.lexsort((-VALS0__.real,))'], {'VALS0__'}, sigs),
+                 rule + '.order', O, 'eigenpairs sorted by descending real part',
+                 'eigenvalues must be ordered by DESCENDING REAL PART (np.argsort(-np.real(vals))): sorting '
+                 'by magnitude/ascending puts -1 (periodic chains) or the smallest eigenvalue first, so '
+                 'column 0 is no longer the stationary vector')
+        bt = {'_B': B}
+        o.decide(sclassify(Q, ['_B[:, 0] / _B[:, 0].sum()', '_B[:, 0] / _B.sum(axis=0)[0]', '_B[:, 0] * (1 / _B[:, 0].sum())',
+                               '_B[:, 0] * (1.0 / _B[:, 0].sum())'], scope, sigs, binds=bt),
+                 rule + '.normalise', Q, 'leading eigenvector normalised to sum one after sorting',
+                 'column 0 must be divided by its own sum AFTER the columns were sorted')
+    if paths is not None:
+        ck.floor(rule + '.which', n_sparse, 1, 'sparse eigensolver call')
+        ck.floor(rule + '.dense', n_dense, 1, 'dense eigensolver call')
+    # --- eq_probs
     fe = mod.func('eq_probs')
     ck.analysed(mod, fe)
-    es = [c for c in calls_in(fe) if call_name(c) == 'eigenspectrum']
-    ok = len(es) == 1 and u(es[0].args[0]) == params(fe)[0] and (
-        kwarg(es[0], 'left') is None or const_value(kwarg(es[0], 'left')) is True)
-    d = mod.func('eigenspectrum')
+    F = 'eq_probs'
+    Te = params(fe)[0]
+    o = Once(ck, mod, fe, F)
+    paths = paths_or_missing(ck, rule + '.eq-probs', mod, fe, F)
     from ..core import param_default
-    dl = param_default(d, 'left')
-    if ok and kwarg(es[0], 'left') is None:
-        ok = const_value(dl) is True
-    ck.check(ok, rule + '.eq-probs', mod, es[0] if es else fe, 'eq_probs', u(es[0]) if es else 'eigenspectrum',
-             'stationary vector from the LEFT eigenvectors', 'eq_probs must request left eigenvectors of T')
-    r = returns_of(fe)
-    st = finfo(mod, fe).stmt(es[0]) if es else None
-    vecname = u(st.targets[0].elts[1]) if st is not None and isinstance(st, ast.Assign) and isinstance(st.targets[0], ast.Tuple) else None
-    ck.check(len(r) == 1 and vecname and u(r[0].value) == '%s[:, 0]' % vecname, rule + '.eq-probs', mod, r[0] if r else fe,
-             'eq_probs', u(r[0]) if r else 'return', 'returns the leading (column 0) eigenvector',
-             'eq_probs must return column 0 of the eigenvector matrix')
+    n = 0
+    for p in (paths or []):
+        if p.kind != 'return':
+            continue
+        n += 1
+        es = _distinct(c for c in ast.walk(p.value) if isinstance(c, ast.Call) and (call_name(c) or '').split('.')[-1] == 'eigenspectrum')
+        if len(es) != 1:
+            o.missing(rule + '.eq-probs', 'one eigenspectrum(...) call feeding the result of eq_probs (found %d)' % len(es))
+            continue
+        c = es[0]
+        eps = params(fn)
+        a0 = c.args[0] if c.args else kwarg(c, eps[0])
+        lf = c.args[2] if len(c.args) > 2 else kwarg(c, LEFT)
+        if lf is None:
+            lf = param_default(fn, LEFT)
+        ok = a0 is not None and u(a0) == Te and lf is not None and const_value(lf) is True
+        o.check(ok, rule + '.eq-probs', c, 'stationary vector from the LEFT eigenvectors', 'eq_probs must request left eigenvectors of T',
+                construct='eigenspectrum(%s, left=%s)' % (u(a0) if a0 is not None else '?', u(lf) if lf is not None else '?'))
+        a = abbreviate(p.value, {u(c): 'ES__'}, sigs)
+        o.decide(sclassify(a, ['ES__[1][:, 0]', 'ES__[1][:, 0].real', 'ES__[1].T[0]', 'ES__[1][:, 0].flatten()', 'ES__[1][:, 0].copy()'],
+                           {'ES__'}, sigs), rule + '.eq-probs', p.value, 'returns the leading (column 0) eigenvector',
+                 'eq_probs must return column 0 of the eigenvector matrix', construct='return %s' % u(a)[:120])
+    if paths is not None:
+        ck.floor(rule + '.eq-probs', n, 1, 'return path of eq_probs')
